@@ -80,6 +80,8 @@ func TestC04(t *testing.T) {
 func c10Opts() bridge.GenOpts {
 	o := poolOpts
 	o.HighCounters = true
+	o.TopFees = true
+	o.Weights = map[string]int{"xtopfee": 3}
 	return o
 }
 
@@ -142,7 +144,7 @@ func TestC12(t *testing.T) {
 func TestC13(t *testing.T) {
 	o := poolOpts
 	o.Bursts = false
-	o.Weights = map[string]int{"exec": 10, "xexec": 18, "xtick": 12, "tick": 6, "hb": 4, "reqbatch": 14, "relay": 10, "send": 36, "xlag": 6, "byz": 14, "deposit": 8, "xbyzdep": 5}
+	o.Weights = map[string]int{"exec": 10, "xexec": 18, "xtick": 12, "tick": 6, "hb": 4, "reqbatch": 14, "relay": 10, "send": 36, "xlag": 6, "byz": 14, "deposit": 8, "xbyzdep": 5, "xfull": 2}
 	o.EthTimeout = []uint64{60000, 150000}
 	o.Denoms = 3
 	o.BlockTimes = true
